@@ -1,6 +1,8 @@
 package main
 
 import (
+	"time"
+	"os"
 	"bytes"
 	"fmt"
 	"runtime"
@@ -37,6 +39,34 @@ func c17conc(args []string) int {
 	out.Sub = "concurrent"
 	rounds := f.N(60, 1500)
 	g := &sgen{}
+	// watchdog: a decode that does not come back leaves its input as a witness and ends the shard with a suspicion
+	// (decided afterwards by run.py under a CPU-time limit, like in the main C17 stage)
+	var curMu sync.Mutex
+	var cur []byte
+	var curSince time.Time
+	setCur := func(b []byte) {
+		curMu.Lock()
+		cur, curSince = b, time.Now()
+		curMu.Unlock()
+	}
+	wp := fmt.Sprintf("/verif/build/c17.current.conc.%s.%d", map[bool]string{false: "plain", true: "race"}[isRace()], f.Shard)
+	go func() {
+		for {
+			time.Sleep(time.Second)
+			curMu.Lock()
+			b, since := cur, curSince
+			curMu.Unlock()
+			if b != nil && time.Since(since) > 60*time.Second {
+				hdr := []byte{byte(len(b)), byte(len(b) >> 8), byte(len(b) >> 16), byte(len(b) >> 24), 0, 0, 0, 0}
+				os.WriteFile(wp, append(hdr, b...), 0o644)
+				fmt.Printf("C17-SUSPECT-TIMEOUT (concurrent stage) %d-byte stream\n", len(b))
+				out.Inconc(fmt.Sprintf("suspect-timeout: decoding a %d-byte valid stream has not come back for 60 s; witness kept at %s", len(b), wp))
+				out.Extra["suspect_witness"] = wp
+				out.Finish(f)
+				os.Exit(0)
+			}
+		}
+	}()
 	for round := 0; round < rounds; round++ {
 		if !f.Mine(round) {
 			continue
@@ -65,6 +95,7 @@ func c17conc(args []string) int {
 				st = st[:len(st)-1-r.Intn(len(st)/2)] // a truncated stream: prefix output + error
 			}
 			streams[i] = st
+			setCur(st)
 			var ob bytes.Buffer
 			err := cbor.Cbor2JsonManyObjects(bytes.NewReader(st), &ob)
 			solo[i], soloErr[i] = append([]byte{}, ob.Bytes()...), err != nil
@@ -129,6 +160,7 @@ func c17conc(args []string) int {
 			}(i)
 		}
 		wg.Wait()
+		setCur(nil)
 		runtime.GOMAXPROCS(old)
 		if bad != "" {
 			out.Violate("concurrent-decode-differs", bad, map[string]interface{}{"check": "c17-conc", "seed": f.Seed, "tier": f.Tier, "round": round, "goroutines": G, "gomaxprocs": procs})
